@@ -7,17 +7,75 @@ Bounded (stand-in, NOT proved): rt_f(rt_f(x)) == rt_f(x) (and a third round) on 
 WIDER domain (trigger words, non-suffix defaults for ReST, unusual types) x formats.
 """
 
+import ast
 import json
 import os
 
-from cddvc import e1
-from cddvc.report import Run, compare_baseline
+from cddvc import e1, extract
+from cddvc.report import PROVED, REFUTED, UNDECIDED, Run, compare_baseline
 from checks import common, domain, roundtrip as R, rt_matrix as M
 
 TYPES = ["int", "float", "str", "bool", "Optional[int]", "Optional[str]", "Literal['x', 'y']", "List[str]", "Union[int, str]", "dict", domain.LONG_LITERAL, domain.LONG_UNION]
 SQL_TYPES = ["int", "float", "str", "bool", "Optional[int]", "Optional[str]", "Literal['x', 'y']"]
 JSON_TYPES = ["int", "float", "str", "bool", "dict", "Optional[int]", "Optional[str]", "Literal['x', 'y']"]
-DOCS = ["the {name}", "number of things, with a comma", "whether to do it", "list of names", "The {name} of it. Defaults to 3", "ends in an ellipsis etc...", ""]
+DOCS = ["the {name}", "number of things, with a comma", "whether to do it", "list of names", "The {name} of it. Defaults to 3", "ends in an ellipsis etc...", "", "50% of the {name} (100%% escaped)"]
+
+
+def help_rule():
+    """
+    Shape rule (both sites of the argparse help text): the emitter writes the description it got from extract_default,
+    at most word-wrapped, into `help=`; the parser reads `help=` back with get_value and nothing else.  Any rewriting on
+    one side only (escaping, stripping, case) is a normalisation the other side does not undo -- it repeats every round.
+    -> (ok | None, detail)
+    """
+    f, _s, _p = extract.find_def("cdd.shared.ast_utils", "param2argparse_param")
+    g, _s, _p = extract.find_def("cdd.argparse_function.utils.emit_utils", "parse_out_param")
+    if f is None or g is None:
+        return None, "param2argparse_param / parse_out_param not found"
+    helps = [c for c in ast.walk(f) if isinstance(c, ast.Call) and getattr(c.func, "id", None) == "keyword"
+             and any(k.arg == "arg" and isinstance(k.value, ast.Constant) and k.value.value == "help" for k in c.keywords)]
+    if len(helps) != 1:
+        return False, "expected exactly one keyword(arg='help', ...) in param2argparse_param, found %d" % len(helps)
+    val = next((k.value for k in helps[0].keywords if k.arg == "value"), None)
+    txt = ast.unparse(val) if val is not None else ""
+    if txt not in ("set_value((fill if word_wrap else identity)(doc))", "set_value(fill(doc))", "set_value(identity(doc))", "set_value(doc)"):
+        return False, "help= is written as %s, not as the (word-wrapped) description itself" % txt
+    binds = []
+    for n in ast.walk(f):
+        tgt = n.targets[0] if isinstance(n, ast.Assign) else getattr(n, "target", None) if isinstance(n, (ast.AugAssign, ast.AnnAssign, ast.NamedExpr, ast.For, ast.comprehension)) else None
+        if tgt is not None and any(isinstance(t, ast.Name) and t.id == "doc" for t in ast.walk(tgt)):
+            binds.append(n)
+    if len(binds) != 1 or ast.unparse(binds[0]).replace("(doc, _default)", "doc, _default") != "doc, _default = extract_default(_param['doc'], emit_default_doc=emit_default_doc)":
+        return False, "`doc` is not bound exactly once, from extract_default(_param['doc'], ...): %s" % "; ".join(ast.unparse(b)[:80] for b in binds)
+    reads = [ast.unparse(ge.elt) for ge in ast.walk(g) if isinstance(ge, ast.GeneratorExp) and "key_word.arg == 'help'" in ast.unparse(ge)]
+    if reads != ["get_value(key_word.value)"]:
+        return False, "parse_out_param reads help= as %r, not as get_value(key_word.value)" % reads
+    return True, "help= is set_value(W(doc)) with W in {fill, identity}, doc bound once from extract_default; parse_out_param reads it back with get_value only"
+
+
+def help_replay(_name=None):
+    """The clause the rule carries, on the real two functions: the help text of an already round-tripped parameter is stable"""
+    import string
+
+    import cdd.argparse_function.utils.emit_utils as EU
+    import cdd.shared.ast_utils as AU
+
+    def emit(doc):
+        node = AU.param2argparse_param(("alpha", {"typ": "str", "doc": doc}), word_wrap=False, emit_default_doc=False)
+        return node, next((AU.get_value(k.value) for k in node.value.keywords if k.arg == "help"), None)
+
+    for c in list(string.printable) + ["%%", "%s", "{}", "{0}", "\\n", "``", "'" * 3, '"' * 3]:
+        doc = "the a%sb of it" % c
+        try:
+            n1, h1 = emit(doc)
+            _name_, p1 = EU.parse_out_param(n1, emit_default_doc=False)
+            n2, h2 = emit(p1.get("doc") or "")
+            _name_, p2 = EU.parse_out_param(n2, emit_default_doc=False)
+        except Exception:
+            continue  # "whenever it returns"
+        if (p1.get("doc") or "") != (p2.get("doc") or "") or h1 != h2:
+            return {"description": doc, "what": "round 1 gives doc %r (help %r), round 2 gives doc %r (help %r)" % (p1.get("doc"), h1, p2.get("doc"), h2)}
+    return None
 
 
 def full(ir):
@@ -93,6 +151,9 @@ def main(tier, write_baseline=False):
     M.RAISE_CTX.update(prop="C08", write=bool(write_baseline))
     run.trusted_base.update(["cddvc E1 (records with presence bits, string VCs)", "z3 5.1"])
     refuted = e1.run_contracts(run, "contracts.C08")
+    ok, detail = help_rule()
+    run.add("C08/structural/argparse-help-verbatim", PROVED if ok else (UNDECIDED if ok is None else REFUTED), "rule-engine", detail=detail)
+    rule_refuted, rule_inputs = run.confirm_or_undecide([("C08/structural/argparse-help-verbatim", detail)] if ok is False else [], help_replay)
     if write_baseline:
         common.write_baseline("C08", [n for n, o in run.obligations.items() if o["status"] == "proved"])
     compare_baseline(run, set(run.obligations))
@@ -132,6 +193,8 @@ def main(tier, write_baseline=False):
         seen.add(o["name"])
         run.violation(o["name"], "obligation refuted by %s on path %s" % (o["backend"], " ".join(o["trace"])),
                       failing_input=common.model_replay("contracts.C08", o) or common.model_replay("contracts.C01", o), solver_output={"model": o["model"], "smt2": (o["smt2"] or "")[:4000]})
+    for name, det in rule_refuted:
+        run.violation(name, det + " -- " + rule_inputs[name]["what"], failing_input=rule_inputs.get(name), solver_output={"rule": det})
     M.report(run, "C08/bounded", fails)
     M.flush_raise_baseline()
     common.apply_controls(run, tier)
